@@ -21,8 +21,8 @@ CLAIMED = {
    note="All theorems closed under the global context. SLAP, MPS and the native SLOS layer / permanent_cx have no algorithmic model: they are compared with the proved specification only. Full-distribution normalisation for all n is checked exactly per instance (mass = 1 as rationals), not proved.",
    tech="Coq proof (Laplace permanent = multiset expansion = SLOS recursion; mask soundness) + extracted-spec differential correspondence on all engines"),
  "C11": dict(cat="proof", ref="DESIGN.md §7 C11",
-   text="Kernel-checked theorems over any commutative ring with conjugation and all sizes: Circuit.inverse(v,h) on any circuit tree (any depth/offsets) yields the adjoint for h (the inverse of a unitary) and J U J for v as soon as the leaf inversions do (tinv_sound); PS/Unitary/PERM inversions are right; the code's BS.inverse is right exactly under stated phase symmetries (partial) and refuted by three vm_compute witnesses (h, v, Ry with v and h), the repaired BS.inverse is right for all parameter values and conventions; the adjacent swaps emitted by break_in_2_mode_perms multiply to the permutation matrix for every permutation of every size and decompose_perms preserves every flat circuit's matrix; experiment._flatten as it is preserves the matrix when no enclosing offset is dropped (depth <= 1 in particular), is refuted at depth 2, and the repaired recursion preserves it for all depths and max_depth; regrouping a unitary run into one block preserves it; the simplifier's rewrite rules (moving a component through a permutation under the contiguity side-condition, the unravelling step, phase-shifter fusion / zero drop / passage through permutations and past disjoint components) hold for all sizes; the checkers circ_eq / mat_close that validate the heuristic search per instance are sound. Every run compares /repo (Circuit.inverse, copy, decompose_perms, break_in_2_mode_perms, Processor.flatten / linear_circuit / non_unitary_circuit, simplify in both display modes, extend_perm, perm_compose, reduce_perm, invert_permutation, _update_adjacent) with the extracted models on generated circuits.",
-   note="All theorems closed under the global context. The simplifier's heuristic search (_generate_compatible_perm, _update_perm, _search_empty_space) is an oracle validated per instance (translation validation), not proved; perm_compose/reduce_perm are tied by correspondence, their matrix lemmas (perm_fuse, perm_trim) are not proved. Six open findings (three in BS.inverse, _flatten, two in _update_adjacent).",
+   text="Kernel-checked theorems over any commutative ring with conjugation and all sizes: Circuit.inverse(v,h) on any circuit tree (any depth/offsets) yields the adjoint for h (the inverse of a unitary) and J U J for v as soon as the leaf inversions do (tinv_sound); PS/Unitary/PERM inversions are right; the code's BS.inverse is right exactly under stated phase symmetries (partial) and refuted by three vm_compute witnesses (h, v, Ry with v and h), the repaired BS.inverse is right for all parameter values and conventions; the adjacent swaps emitted by break_in_2_mode_perms multiply to the permutation matrix for every permutation of every size and decompose_perms preserves every flat circuit's matrix; experiment._flatten as it is preserves the matrix when no enclosing offset is dropped (depth <= 1 in particular), is refuted at depth 2, and the repaired recursion preserves it for all depths and max_depth; regrouping a unitary run into one block preserves it; the simplifier's rewrite rules (two consecutive PERMs = perm_compose, reduce_perm trimming, moving a component through a permutation under the contiguity side-condition, the unravelling step, phase-shifter fusion / zero drop / passage through permutations and past disjoint components) hold for all sizes; the checkers circ_eq / mat_close that validate the heuristic search per instance are sound. Every run compares /repo (Circuit.inverse, copy, decompose_perms, break_in_2_mode_perms, Processor.flatten / linear_circuit / non_unitary_circuit, simplify in both display modes, extend_perm, perm_compose, reduce_perm, invert_permutation, _update_adjacent) with the extracted models on generated circuits.",
+   note="All theorems closed under the global context. The simplifier's heuristic search (_generate_compatible_perm, _update_perm, _search_empty_space) is an oracle validated per instance (translation validation), not proved; Six open findings (three in BS.inverse, _flatten, two in _update_adjacent).",
    tech="Coq proof (induction over circuit trees, permutation conjugation, bubble-sort invariant) + extracted-model differential correspondence + translation validation of simplify"),
 }
 REASON_PENDING = "not yet built in this development (see DESIGN.md §10 for the build order); no check is claimed"
